@@ -336,3 +336,51 @@ func Harness_C09_UntypedTarget() {
 	}
 	verifCover("end")
 }
+
+// a binding arm whose variable has the name of an outer variable of ANOTHER
+// union type, and that outer variable matched on later (in a later arm of
+// the same match, or after it): the arm variable is local to its arm, so the
+// later match is judged against the outer variable's union
+func Harness_C09_ShadowedTarget() {
+	name := []string{"w", "z"}[verifChoice("name", 2)]
+	mask := 1 + verifChoice("mask", 3)
+	deflt := verifChoice("default", 2) == 1
+	place := verifChoice("place", 2)
+	src := "package main\n\ntype Inner =\n  | I1\n  | I2\n\ntype Other =\n  | O1\n  | O2\n  | O3\n\ntype Outer =\n  | P of Other\n  | Q\n\n" +
+		"let rank (o:Other) =\n  match o with\n  | O1 -> 10\n  | O2 -> 20\n  | O3 -> 30\n\nlet f (v:Outer) (w:Inner) =\n"
+	arms := func(ind string) string {
+		s := ""
+		if mask&1 != 0 {
+			s += ind + "| I1 -> 1\n"
+		}
+		if mask&2 != 0 {
+			s += ind + "| I2 -> 2\n"
+		}
+		if deflt {
+			s += ind + "| _ -> 3\n"
+		}
+		return s
+	}
+	if place == 0 {
+		src += "  match v with\n  | P " + name + " -> rank " + name + "\n  | Q ->\n    match w with\n" + arms("    ")
+	} else {
+		src += "  let a = match v with\n          | P " + name + " -> rank " + name + "\n          | Q -> 0\n  let b = match w with\n" + arms("          ") + "  a + b\n"
+	}
+	verifSetFile("t.fo", src)
+	verifSetArgs([]string{"fc", "t.fo"})
+	code := verifRunMain(main)
+	if deflt || mask == 3 {
+		verifAssert(code == 0 && verifNumWrites() == 1, "a match covering the cases of the outer variable's union (or defaulted) is accepted: "+verifStdout())
+		gen, _ := verifFile("gen_t.go")
+		if mask&1 != 0 {
+			verifAssert(indexOf(gen, "case Inner_I1:", 0) >= 0, "the later match switches over the outer variable's union")
+		}
+		verifCover("accepted")
+	} else {
+		verifAssert(code != 0, "a match omitting a case of the outer variable's union is rejected")
+		verifAssert(verifNumWrites() == 0, "no output file for a rejected program")
+		verifAssert(indexOf(verifStdout(), "Can't find case: I", 0) >= 0, "the diagnostic names an uncovered case of the outer variable's union")
+		verifCover("rejected")
+	}
+	verifCover("end")
+}
